@@ -25,7 +25,7 @@ import namesfamily as nf
 from namesfamily import flat_name, class_seq, nfkc
 from report import Reporter
 
-MAX_EVENTS = 6000
+MAX_EVENTS = {"quick": 6000, "thorough": 40000}
 MAX_UNPREDICTED = 300
 
 
@@ -129,7 +129,7 @@ def run(pid, tier, replay_file=None):
     def add_event(text, **info):
         eid = len(ev_info) + 1
         ev_info[eid] = info
-        if len(events) < MAX_EVENTS:
+        if len(events) < MAX_EVENTS[tier]:
             events.append((eid, text))
         else:
             skipped["events"] += 1
@@ -479,6 +479,7 @@ def run(pid, tier, replay_file=None):
         drift_events_adjudicated=len(events), drift_events_skipped=dict(skipped),
         observations_represented_by_events=sum(i.get("count", 1) for i in ev_info.values()),
         class_table=dict(classes=len(table.attr), code_points_classified=len(table._cache)),
+        library_names_not_in_GenNames=table.library_names_missing(),
         sweep=sweep, timing=timing,
         violation_keys={"|".join(str(x) for x in k): g["count"] for k, g in rep.groups.items()},
     )
